@@ -84,6 +84,7 @@ let components : (string * (string list * (unit -> z -> tok list -> tok list))) 
   ("sum", (["sum"], mk () sum_step));
   ("tcpo", (["tcpo"], mk () tcpo_step));
   ("match", (["match"], mk () match_step));
+  ("sf", (["cfg"; "pkt"; "live"], mk fo_new fo_step));
   ("ipr", (["pkt"], mk [] ipr_step));
   ("ack", (["new"; "pkt"; "q"], mk (ack_new Z0 false) ack_step));
 ]
